@@ -390,7 +390,9 @@ def gen_dataset(prop: str, idx: int) -> dict:
             for k, f in enumerate(files):
                 sub = lr.choice(dirs[1:] if k == 0 else dirs)
                 f["subdir"] = sub
-                if k and lr.random() < 0.3 and files[0]["subdir"] != sub:
+                if k and lr.random() < 0.3 and not any(
+                        g["subdir"] == sub and g["name"] == files[0]["name"]
+                        for g in files[:k]):
                     f["name"] = files[0]["name"]
         if "per_line" in lay:
             # every file is a sequence of documents, one per line: the
